@@ -251,10 +251,14 @@ func (s *Service) Process(ctx context.Context, msg interface{}, ctl *core.Contro
 
 	if err = s.store.WriteState(ctx, s.crewName, mss); err != nil {
 		log.Printf("Service.Process warning for '%s' failed WriteState: %s", s.crewName, err)
-	} else {
-		for mid, state := range states {
-			c.Machines[mid].State = state
-		}
+		// Nothing was stored, so nothing happened: The machines
+		// stay where they were, and what they emitted on the way
+		// is not reported or processed.
+		return processed, err
+	}
+
+	for mid, state := range states {
+		c.Machines[mid].State = state
 	}
 
 	if Verbose {
